@@ -75,12 +75,14 @@ class Anchors:
                 yield from alts(e.orelse, n, guards + [(text, not pos)])
             else:
                 yield e, guards
-        for n in self.cfg.live_nodes():
-            if n.kind == 'return' and n.ast is not None and n.ast.value is not None:
-                for (e, guards) in alts(n.ast.value, n, []):
-                    text = self.nz.expr(e, n)
-                    self.returns.append((n, text, pat.match(text)))
-                    self.expr_guards[len(self.returns) - 1] = guards
+        # (every definition of a returned local counts as a returned value, at the node that assigns it: `result = field` /
+        #  `result = TABLE[style](...)` / `return result`)
+        from ..cfg import returned_values
+        for (val_e, n) in returned_values(self.cfg):
+            for (e, guards) in alts(t.cast(ast.expr, val_e), n, []):
+                text = self.nz.expr(e, n)
+                self.returns.append((n, text, pat.match(text)))
+                self.expr_guards[len(self.returns) - 1] = guards
         apps = [m for (_n, _t, m) in self.returns if m]
         if not apps:
             raise AnalysisError(f"{f.loc()}: rename_field has no return of the form TABLE[style](SPLIT(field)); "
@@ -1074,6 +1076,7 @@ def rule_c20_r7(model: Model) -> RuleResult:
             forms.extend(_split_phi(nz.expr(n.ast.value, n)))
     if not forms:
         raise AnalysisError(f"{d.loc()}: PaneBase.dict returns nothing")
+    forms = [y for x in forms for y in _distribute_elem_phi(x)]
     for form in forms:
         r.instances += 1
         m_ = re.match(r'^DICT\((.*?): getattr\(', form)
@@ -1214,3 +1217,47 @@ def rule_c20_r9(model: Model) -> RuleResult:
                    f.loc(n.ast) if n.ast is not None else f.loc(),
                    "names that split into words perfectly well (the kebab or camel form of a field, converted back to snake) are refused")
     return r
+
+
+def _matching_paren(text: str, start: int) -> int:
+    """Index of the parenthesis closing the one at ``start``."""
+    depth = 0
+    for i in range(start, len(text)):
+        if text[i] in '([{':
+            depth += 1
+        elif text[i] in ')]}':
+            depth -= 1
+            if depth == 0:
+                return i
+    return -1
+
+
+def _distribute_elem_phi(form: str) -> t.List[str]:
+    """``... ELEM(PHI(A|B)) ...`` (one comprehension over a source chosen by an ``if``) is one form per source; an element of a
+    generator ``GEN(E if C)`` is ``E``."""
+    from .agreement import _split_phi
+    i = form.find('ELEM(PHI(')
+    if i < 0:
+        out = form
+        # ELEM(GEN(E if C)) / ELEM(GEN(E)) -> E
+        while True:
+            j = out.find('ELEM(GEN(')
+            if j < 0:
+                break
+            end = _matching_paren(out, j + 4)
+            if end < 0:
+                break
+            inner = out[j + 9:end - 1]
+            k = inner.rfind(' if ')
+            elem = inner[:k] if k >= 0 and inner.count('(', 0, k) == inner.count(')', 0, k) else inner
+            out = out[:j] + elem + out[end + 1:]
+        return [out]
+    end = _matching_paren(form, i + 4)
+    if end < 0:
+        return [form]
+    whole = form[i:end + 1]
+    alts = _split_phi(form[i + 5:end])
+    res: t.List[str] = []
+    for a_ in alts:
+        res.extend(_distribute_elem_phi(form.replace(whole, f'ELEM({a_})')))
+    return res
